@@ -18,14 +18,15 @@ class AnchorLost(Exception):
 
 
 class Item:
-    def __init__(self, kind, name, header, t_start, t_body, t_end, toks, src):
+    def __init__(self, kind, name, header, t_start, t_body, t_end, toks, src, t_attrs=None):
         self.kind, self.name, self.header = kind, name, header
+        self.t_attrs = t_start if t_attrs is None else t_attrs
         self.t_start, self.t_body, self.t_end = t_start, t_body, t_end  # token indices; t_end inclusive
         self.toks, self.src = toks, src
 
     @property
     def start(self):
-        return self.toks[self.t_start].start
+        return self.toks[self.t_attrs].start
 
     @property
     def end(self):
@@ -113,7 +114,7 @@ def items_in(toks, src, lo, hi):
                 header = norm(src[toks[k].start:toks[body].start]) if body is not None else norm(src[toks[k].start:toks[m].start])
             else:
                 header = f"{kind} {name}"
-            yield Item(kind, name, header, after_attrs, body, m, toks, src)
+            yield Item(kind, name, header, after_attrs, body, m, toks, src, t_attrs=first)
             k = m + 1
         elif t.kind == "ident" and _skip_trivia(toks, k + 1, hi) < hi and toks[_skip_trivia(toks, k + 1, hi)].text == "!":
             # macro invocation / macro_rules definition at item level
